@@ -136,6 +136,26 @@ PROPS = {
              "after the parent created ids. Distinct = hash of the decoded case.",
         assumptions=COMMON_ASSUME + ["only time() is under the harness' control; other entropy sources are the real ones"],
     ),
+    "C20": dict(
+        bin="h_tree", sub="c20", level="exploration",
+        technique="rapidcheck-generated section/source trees with metadata, source and link assignments and deletions; every search and back-reference query compared with a brute-force traversal of the file's snapshot",
+        level_text="generated section and source trees (depth <= 5, branching <= 4, equal names in different parents, 3 types), entities with "
+                   "metadata and source assignments in 1-2 blocks, section links, properties with shadowing names, 0-4 deletions, optional "
+                   "reopen; then Section::findSections / Source::findSources (breadth-first order, exact list), File::findSections / "
+                   "Block::findSources (multiset), all referring* queries with and without block argument, parentSource, parent, "
+                   "inheritedProperties are compared with a brute-force evaluation on the snapshot; filters accept-all / id / name / type / id "
+                   "set; depth limits 0..depth+1 and the unlimited default",
+        level_note="depth conventions as documented and pinned by the suite: Section::findSections excludes the start (children = depth 1), "
+                   "Source::findSources includes it (depth 0), File::findSections roots = depth 1, Block::findSources roots = depth 0; "
+                   "findRelated is only required to return filter-satisfying sections other than the start, each once (the statement does "
+                   "not define it further); type filters use alphanumeric types (the filter is a regex)",
+        quick=dict(cases=150, size=1500, workers=16, timeout=1800),
+        thorough=dict(cases=4000, size=1500, workers=16, timeout=14400),
+        rule="tape -> trees, assignments, deletions, 4-16 search queries and up to 8 back-reference query groups. Non-trivial: a search "
+             "with a depth limit strictly inside a subtree of depth >= 3 whose filter matched nodes on at least 2 levels, in a file that "
+             "went through at least one deletion. Distinct = hash of the decoded shape (names, link pattern) and operations.",
+        assumptions=COMMON_ASSUME,
+    ),
     "C08": dict(
         bin="h_tree", sub="c08", level="exploration",
         technique="rapidcheck-generated API programs with invalid arguments; complete observable state (snapshot) compared before/after every call that threw",
